@@ -20,7 +20,9 @@ from ..report import Violation, Inconclusive
 from .. import effects
 
 ENTRY_NAMES = {"evaluate", "__call__", "get_batch", "temporal_batch", "inside_batch", "border_batch", "obs_batch", "param_batch",
-               "_evaluate", "_eval_heterogeneous_parameters", "eval_nn", "equation"}
+               "_evaluate", "_eval_heterogeneous_parameters", "eval_nn", "equation",
+               # the batch-composition helpers of the data module (called by solve and by the validation modules on drawn batches)
+               "append_param_batch", "append_obs_batch"}
 MODULES = ["jinns/loss/_LossODE.py", "jinns/loss/_LossPDE.py", "jinns/loss/_loss_utils.py", "jinns/loss/_boundary_conditions.py",
            "jinns/loss/_DynamicLossAbstract.py", "jinns/loss/_DynamicLoss.py", "jinns/loss/_operators.py",
            "jinns/parameters/_params.py", "jinns/parameters/_derivative_keys.py", "jinns/data/_DataGenerators.py",
